@@ -377,8 +377,9 @@ class FnCtx:
         if self.pre is None:
             self.err(n, 'temporary outside a full-expression')
         tmp = self.newtmp()
-        self.pre.append('%s;' % self.lw.ctype(t, tmp))
+        at = len(self.pre)
         self.init_into('&' + tmp, n)
+        self.pre.insert(at, '%s;' % self.lw.ctype(t, tmp))     # declared after lowering: lambdas register their type late
         if self.lw.nontrivial_dtor(t):
             d = self.dtor_stmt(t, '&' + tmp)
             if lifetime_ext:
